@@ -289,11 +289,13 @@ def ref_load(ast, resources, main_url, packages=None, env=None, sm=None):
 
 def _ref_load(ast, resources, main_url, packages, env, sm):
     sm = copy.deepcopy(sm) if sm is not None else compile_schema(ast, packages)
-    try:
-        events, _defs = model.ref_read(resources, main_url, env=env)
-    except model.Reject as e:
-        promised = e.kind not in ("include-missing", "include-cycle", "include-fragment")
-        raise _Reject("syntax:" + e.kind, e.lineno, e.url, promised=promised)
+    def reading():
+        try:
+            yield from model.ref_read_iter(resources, main_url, env=env)
+        except model.Reject as e:
+            promised = e.kind not in ("include-missing", "include-cycle", "include-fragment")
+            raise _Reject("syntax:" + e.kind, e.lineno, e.url, promised=promised)
+    events = reading()
     handlers = []
     stats = {"sections": 0, "keys": 0, "defaults_used": 0, "text_values": 0, "nested": 0,
              "imports": 0, "imported_types_used": 0}
